@@ -18,7 +18,9 @@ from lib.dsched import Sched
 RULE = ("all interleavings (at loads/stores of __coords/__precompute of shared objects) of 2 threads x all pairs of "
         "{x, y, scale, to_affine, ==, +, double, neg, * k, mul_add, pickle, verify} x {plain point (z != 1), generator "
         "(table built lazily by the first multiplication), table already built}, on two prime-order toy curves; DFS with "
-        "hashing of (cells, per-thread read history); thorough: 3 threads with <= 2 preemptions; a schedule is distinct by "
+        "hashing of (cells, per-thread read history); key level: all pairs of {precompute, precompute(lazy), verify_digest, "
+        "to_string, point.x, point*k, pickle} on one shared VerifyingKey (the point object swapped in by precompute becomes "
+        "a shared object when published); thorough: 3 threads with <= 2 preemptions; a schedule is distinct by "
         "(operations, variant, choice list); every modelled pair is also replayed on the Lean model step by step")
 ASSUMPTIONS = ["one load or store of an attribute and the construction of a tuple are atomic under the GIL (trusted base); "
                "the model cannot exhibit a torn reference",
@@ -69,7 +71,9 @@ def _callback(code, offset):
     obj = sys._getframe(1).f_locals.get(recv)
     k = run.ids.get(id(obj))
     if k is None:
-        return None
+        k = run.publish(obj)
+        if k is None:
+            return None
     if field == "dict":
         # pickling snapshot: both cells are read by one dict.copy(); two scheduler steps (model: two reads)
         run.sched.yield_point(("R", k, "coords"))
@@ -156,6 +160,58 @@ class Scenario:
 
     def curve_tokens(self):
         return "%d %d %d" % (self.toy.p, self.toy.a, self.toy.b)
+
+
+class KeyScenario:
+    """a VerifyingKey shared between threads (`keys.py` VerifyingKey.precompute swaps the point object by one attribute
+    store): shared objects = the key's current public point (id 0, z = 2) and the curve generator G (id 1, generator
+    flag set, table lazily built); a point object swapped in by precompute() becomes shared when it is published"""
+
+    def __init__(self, toy, variant="key"):
+        self.toy, self.variant = toy, variant
+        self.d, self.k, self.dg = 3, 5, b"\x07"
+
+    def make(self):
+        import hashlib
+        from ecdsa import ellipticcurve as E
+        from ecdsa.curves import Curve
+        from ecdsa.keys import VerifyingKey, SigningKey
+        t = self.toy
+        c = t.curve()
+        G = E.PointJacobi(c, t.gx, t.gy, 1, t.n, generator=True)
+        tc = Curve("toy%d" % t.p, c, G, (1, 2, 3, t.p), "toy%d" % t.p)
+        sk = SigningKey.from_secret_exponent(self.d, curve=tc, hashfunc=hashlib.sha1)
+        self.sig = sk.sign_digest(self.dg, k=self.k, allow_truncate=True)
+        Qc = jac(t, affine_mul(t, self.d), 2)
+        Q = E.PointJacobi(c, Qc[0], Qc[1], Qc[2], t.n, False)
+        vk = VerifyingKey.from_public_point(Q, curve=tc, hashfunc=hashlib.sha1)
+        if vk.pubkey.point is not Q:
+            raise RuntimeError("from_public_point copied the point")
+        self.vk = vk
+        return [Q, G]
+
+
+def key_operations(scn):
+    def verify(o, vk):
+        from ecdsa.keys import BadSignatureError
+        ok = vk.verify_digest(scn.sig, scn.dg, allow_truncate=True)
+        try:
+            vk.verify_digest(scn.sig, b"\x08", allow_truncate=True)
+            return (ok, True)
+        except BadSignatureError:
+            return (ok, False)
+    return {
+        "k_precompute": lambda o, vk: vk.precompute(),
+        "k_precompute_lazy": lambda o, vk: vk.precompute(lazy=True),
+        "k_verify": verify,
+        "k_to_string": lambda o, vk: vk.to_string(),
+        "k_point_x": lambda o, vk: vk.pubkey.point.x(),
+        "k_point_mul": lambda o, vk: vk.pubkey.point * 4,
+        "k_pickle": lambda o, vk: pickle.loads(pickle.dumps(vk.pubkey.point)),
+    }
+
+
+KEY_OPS = ["k_precompute", "k_precompute_lazy", "k_verify", "k_to_string", "k_point_x", "k_point_mul", "k_pickle"]
 
 
 def _verify_op(toy):
@@ -268,8 +324,14 @@ class Exec(Run):
         self.scn, self.opnames = scn, opnames
         self.objs = scn.make()
         self.ids = {id(o): k for k, o in enumerate(self.objs)}
-        ops = operations(scn.toy)
-        self.fns = [ops[n][0] for n in opnames]
+        self.vk = getattr(scn, "vk", None)
+        if self.vk is not None:
+            kops = key_operations(scn)
+            vk = self.vk
+            self.fns = [(lambda o, f=kops[n]: f(o, vk)) for n in opnames]
+        else:
+            ops = operations(scn.toy)
+            self.fns = [ops[n][0] for n in opnames]
         self.sched = None
         self.reads = [[] for _ in opnames]     # per thread: what it has read so far (digest)
         self.heaps = []
@@ -284,6 +346,15 @@ class Exec(Run):
         finally:
             Run.cur = None
         return self
+
+    def publish(self, obj):
+        """an object that is not registered: it is shared iff it is now the public point of the shared key"""
+        if self.vk is None or obj is None or self.vk.pubkey.point is not obj:
+            return None
+        k = len(self.objs)
+        self.objs.append(obj)
+        self.ids[id(obj)] = k
+        return k
 
     def cell(self, k, field):
         o = self.objs[k]
@@ -306,7 +377,7 @@ class Exec(Run):
 
 def good_heap(scn, objs, good):
     """every shared cell holds one of its allowed values"""
-    for k, o in enumerate(objs):
+    for k, o in enumerate(objs[:len(good)]):
         c = o._PointJacobi__coords
         t = o._PointJacobi__precompute
         if c not in good[k]["coords"]:
@@ -336,13 +407,15 @@ def good_values(scn):
 
 def sequential(scn, opnames):
     """value results of the operations run one after another, in every order -> per operation the set of acceptable values"""
-    ops = operations(scn.toy)
+    iskey = isinstance(scn, KeyScenario)
+    ops = None if iskey else operations(scn.toy)
     acc = [set() for _ in opnames]
     for order in itertools.permutations(range(len(opnames))):
         objs = scn.make()
+        kops = key_operations(scn) if iskey else None
         for i in order:
             try:
-                r, e = ops[opnames[i]][0](objs), None
+                r, e = (kops[opnames[i]](objs, scn.vk) if iskey else ops[opnames[i]][0](objs)), None
             except Exception as ex:  # noqa
                 r, e = None, ex
             acc[i].add(value_result(r, objs, e) if not (e is None and any(r is o for o in objs)) else "self")
@@ -470,7 +543,7 @@ def pairs(ctx):
 
 def _task(arg):
     ti, variant, opnames, max_runs, bound, want = arg
-    scn = Scenario(TOYS[ti], variant)
+    scn = KeyScenario(TOYS[ti]) if variant == "key" else Scenario(TOYS[ti], variant)
     try:
         r = explore(scn, list(opnames), max_runs=max_runs, preempt_bound=bound, want_traces=want)
     except Exception as e:  # noqa
@@ -501,6 +574,10 @@ def _all_results(ctx):
         for variant in VARIANTS:
             for (a, b) in pairs(ctx):
                 tasks.append((ti, variant, (a, b), 400 if ctx.quick else 3000, None, True))
+    for ti in toys:
+        for i, a in enumerate(KEY_OPS):
+            for b in KEY_OPS[i:]:
+                tasks.append((ti, "key", (a, b), 400 if ctx.quick else 3000, None, False))
     if not ctx.quick:
         names = CORE_OPS
         trip = [(a, b, c) for a in names for b in names for c in names if a <= b <= c]
@@ -522,7 +599,7 @@ def correspond(ctx):
             ctx.problem("harness", "C18 exploration crashed", o["error"])
             continue
         ti, variant, opnames, _, _, want = o["arg"]
-        if not want:
+        if not want or variant == "key":
             continue
         toks = [ops[n][1] for n in opnames]
         if any(t is None for t in toks):
@@ -601,5 +678,5 @@ def search(ctx):
 
 def replay(rec):
     i = rec["input"]
-    scn = Scenario(TOYS[i["toy"]], i["variant"])
+    scn = KeyScenario(TOYS[i["toy"]]) if i["variant"] == "key" else Scenario(TOYS[i["toy"]], i["variant"])
     return run_one(scn, i["ops"], i["schedule"]) is not None
